@@ -3,7 +3,7 @@
 Single-point AST mutants of processscheduler/*.py are generated; each mutant package is written to a
 scratch directory that shadows the installed one through PYTHONPATH (the repository itself is never
 modified), and the quick checks relevant to the mutated file are run until one of them alarms.
-usage: tools/mutate.py <outdir> <n_mutants> [seed]     -> <outdir>/results.jsonl"""
+usage: tools/mutate.py <outdir> <n_mutants> [seed] [start index]     -> <outdir>/results.jsonl"""
 import ast
 import copy
 import json
@@ -126,13 +126,13 @@ class Mutator(ast.NodeTransformer):
 
     def visit_Attribute(self, node):
         self.generic_visit(node)
-        if self.kind == "swapattr" and self._hit(node):
+        if self.kind == "swapattr" and node.attr in SWAP and self._hit(node):
             self.done = f".{node.attr} -> .{SWAP[node.attr]}"
             node.attr = SWAP[node.attr]
         return node
 
     def visit_Name(self, node):
-        if self.kind == "swapname" and self._hit(node):
+        if self.kind == "swapname" and node.id in SWAP and self._hit(node):
             self.done = f"{node.id} -> {SWAP[node.id]}"
             return ast.copy_location(ast.Name(id=SWAP[node.id], ctx=node.ctx), node)
         return node
@@ -165,6 +165,7 @@ def all_sites():
 def main():
     outdir, n = sys.argv[1], int(sys.argv[2])
     seed = int(sys.argv[3]) if len(sys.argv) > 3 else 1
+    start = int(sys.argv[4]) if len(sys.argv) > 4 else 0  # resume a campaign at this index
     os.makedirs(outdir, exist_ok=True)
     sites = all_sites()
     rnd = random.Random(seed)
@@ -172,6 +173,8 @@ def main():
     print(f"{len(sites)} mutation sites; running {n}", flush=True)
     res = open(os.path.join(outdir, "results.jsonl"), "a")
     for k, (fn, kind, line, col, where) in enumerate(sites[:n]):
+        if k < start:
+            continue
         src = open(os.path.join(REPO, "processscheduler", fn)).read()
         tree = ast.parse(src)
         m = Mutator((kind, line, col, where))
